@@ -6,6 +6,9 @@ Import ListNotations.
 From Base Require Import PyStr.
 From Model Require Import Wrap.
 From Proofs Require Import WrapProofs.
+
+From Model Require Tags LineWrap.
+From Proofs Require HardBreakProofs.
 Local Open Scope Z_scope.
 
 (* Lossless: the lines are the input words in order; line 0 verbatim, the head of every
@@ -84,3 +87,13 @@ Theorem C05_wrap_nowrap : forall esc splitter text width c0 c1 md, width <= 0 ->
   (out = [] <-> split_ws text = []).
 Proof. exact wrap_nowrap. Qed.
 Print Assumptions C05_wrap_nowrap.
+
+(* 11. Hard-break segments (Markdown line wrapper): every segment between hard breaks yields exactly one piece
+   of the output, in order, and every piece but the last ends in the break's backslash - whatever the
+   underlying wrapper does, for every width and indent. *)
+Theorem C05_hard_break_segments_kept : forall (base : Tags.wrapper) segs first i1 i2 ws,
+  LineWrap.wrap_hard_segments base segs first i1 i2 = ret ws ->
+  length ws = length segs /\
+  (forall k w, (S k < length segs)%nat -> nth_error ws k = Some w -> exists body, w = body ++ [bsl]).
+Proof. exact HardBreakProofs.hard_segments_kept. Qed.
+Print Assumptions C05_hard_break_segments_kept.
